@@ -408,7 +408,8 @@ RejectedIsNoop == okRej
 Recoverable == okRec
 (* design / auxiliary *)
 NoInvalid == \A d \in DBs : reg[d].gen # -1
-TypeOK == /\ \A d \in DBs : reg[d].gen \in {-9, -1} \cup (0..(MaxOps + 1)) /\ cfg[d].gen \in {-9} \cup (1..(MaxOps + 1))
+TypeOK == /\ \A d \in DBs : /\ reg[d].gen \in {-9, -1} \/ (reg[d].gen >= 0 /\ reg[d].gen <= MaxOps + 1)
+                            /\ cfg[d].gen = -9 \/ (cfg[d].gen >= 1 /\ cfg[d].gen <= MaxOps + 1)
           /\ \A n \in Nodes : loc[n].pc \in {"idle", "rreg", "rcfg1", "rcfg2", "touch", "wrb", "wd1", "wd2", "wddel", "wdrb",
                                              "wreg", "wcfg", "freg", "fwr", "ret"}
 =============================================================================
